@@ -541,6 +541,10 @@ class Dynamic(Parameter):
         """
         super().__set__(obj,val)
 
+        if obj is not None and self.allow_refs and obj._param__private.refs.get(self.name) is val:
+            # val was linked as a reference, it is not a value generator
+            return
+
         dynamic = callable(val)
         if dynamic: self._initialize_generator(val,obj)
         if obj is None: self._set_instantiate(dynamic)
